@@ -297,6 +297,52 @@ def check(prog, rep, tier):
 
     # ---------------------------------------------------------------- R08.d
     width_rule(prog, rep, 'R08.d')
+    addpath_layout(prog, rep)
+    from .c10 import shared_state_writes
+    nfun, found = shared_state_writes(prog, lambda fn: fn.module.name.startswith('yabgp.message')
+                                      and fn.name.startswith('construct'))
+    for fn, node, what in found:
+        key = 'state:%s:%s' % (fn.qualname, what)
+        rep.bad('R08.e', key, file=fn.file, line=node.lineno, func=fn.qualname,
+                found='%s: an earlier message changes how later ones are built (flags/lengths no longer match)' % what,
+                key=key)
+
+
+def addpath_layout(prog, rep):
+    """With ADD-PATH every prefix is <path id (4)> <length (1)> <prefix>: the path identifier is emitted
+    for every value of the identifier (0 is legal)."""
+    from .. import codec
+    qual = 'yabgp.message.update.Update.construct_prefix_v4'
+    f = prog.func(qual)
+
+    def plist(st):
+        d = st.new_obj('dict', hint='prefix')
+        st.heap[d.oid].items = {'path_id': prims.mk_sym(st, 'path_id', 0, 2 ** 32 - 1),
+                                'prefix': Const('10.0.0.0/24')}
+        l = st.new_obj('list', hint='prefix_list')
+        st.heap[l.oid].items = [d]
+        return l
+    _f, outs = codec.run(prog, qual, [plist, Const(True)], {}, may_raise=False)
+    bad = None
+    n = 0
+    for k, v, s in outs:
+        if k != 'val':
+            continue
+        n += 1
+        items = BL.fields(BL.flatten(v)) if isinstance(v, BytesV) else []
+        codes = [p[1] for p in items if p[0] == 'field']
+        if codes[:2] != ['I', 'B'] or items[0][2].desc() != 'path_id':
+            lo, hi, neq = s.interval('path_id')
+            bad = bad or 'for path_id in [%s, %s] the prefix is emitted as %s (no 4-octet path identifier)' % (
+                lo, hi, codes[:3])
+    key = 'addpath-layout'
+    if bad:
+        rep.bad('R08.d', key, file=f.file, line=f.node.lineno, func=qual, found=bad,
+                expected='<path id> <length> <prefix> for every path id', key=key)
+    elif n:
+        rep.ok('R08.d', key, file=f.file, line=f.node.lineno, found='%d path(s)' % n)
+    else:
+        rep.undecided('R08.d', key, found='no path')
 
 
 def mp_layout(prog, rep, results):
